@@ -132,6 +132,12 @@ def parse_out(line):
 
 
 KEY_STALE_GRAD = 'fista-stale-grad-after-backtrack'
+EPS = 2.0 ** -52
+COUNTS = {}          # what monitor_c06 checked / could not check, by reason
+
+
+def bump(k, n=1):
+    COUNTS[k] = COUNTS.get(k, 0) + n
 
 
 def monitor_c06(op_line, out_line, st=None):
@@ -163,21 +169,67 @@ def monitor_c06(op_line, out_line, st=None):
         return 'Interrupted without a stop request'
     if stx['status'] == 'NotFinite' and math.isfinite(stx['eps']):
         return 'NotFinite with a finite ε'
-    if op.nat('nanat') or op.nat('crit') not in (0, 1, 8):
+    if op.nat('nanat'):
+        bump('exempt_nan_injected_oracle')      # the ψ oracle is not the problem's ψ on such a run
         return None
+    # ---- the data ε is computed from belong to the reported points (C06_Fista.fista_eps_is_documented):
+    #      ∇ψ(x) at the reported x, (x̂, p) the proximal-gradient step from (x, γ, ∇ψ(x)), and — when the
+    #      criterion reads them — ŷ(x̂), ∇ψ(x̂) at the reported x̂; all from exact rational arithmetic.
     ex = S.Exact(op)
     y0 = S.frv(op.vec('y0')); Sig = S.frv(op.vec('Sig'))
+    qscale = (1 + max(abs(float(v)) for v in ex.Q + [Fr(1)])) ** 2
+    l1 = [Fr(a) for a in (ex.l1 if len(ex.l1) == ex.n else [ex.l1[0]] * ex.n if len(ex.l1) == 1 else [0.0] * ex.n)]
+    reads_hat = op.nat('crit') in (0, 1, 8)
     for cb in cbs:
-        if not cb['have_gh'] or any(not math.isfinite(a) for a in cb['xhat'] + cb['grad_psi_hat']):
+        if any(not math.isfinite(a) for a in cb['x'] + cb['grad_psi'] + cb['xhat'] + cb['p'] + [cb['gamma']]):
+            bump('exempt_nonfinite_callback_data')
             continue
-        g = ex.grad_psi(S.frv(cb['xhat']), y0, Sig)
+        if max(abs(a) for a in cb['x'] + cb['xhat'] + [0.0]) > 1e60:
+            bump('exempt_beyond_1e60')
+            continue
+        X = S.frv(cb['x'])
+        g = ex.grad_psi(X, y0, Sig)
+        scale = max([abs(float(b)) for b in g] + [abs(a) for a in cb['x']] + [1.0])
+        for i, (a, b) in enumerate(zip(cb['grad_psi'], g)):
+            if abs(Fr(a) - b) > Fr(1e-9) * Fr(scale) * Fr(qscale):
+                return (f'k={cb["k"]}: reported ∇ψ(x)[{i}] = {a!r} but ∇ψ at the reported x is {float(b)!r}')
+        bump('grad_at_x_checked')
+        # proximal-gradient data from (x, γ, reported ∇ψ(x)): x̂ = prox_{γh}(x − γ∇ψ), p = x̂ − x
+        gam = Fr(cb['gamma'])
+        for i in range(ex.n):
+            v = X[i] - gam * Fr(cb['grad_psi'][i])
+            t = gam * l1[i]
+            soft = max(min(Fr(0), v + t), v - t)
+            xh = ex.proj(soft, ex.Clb[i], ex.Cub[i])
+            tol_i = 16 * EPS * max(abs(cb['x'][i]), abs(float(gam) * cb['grad_psi'][i]), abs(cb['xhat'][i]), 1e-300)
+            if abs(Fr(cb['xhat'][i]) - xh) > tol_i:
+                return (f'k={cb["k"]}: reported x̂[{i}] = {cb["xhat"][i]!r} is not the proximal-gradient step '
+                        f'prox(x − γ∇ψ(x)) = {float(xh)!r} at the reported γ = {cb["gamma"]!r}')
+            if abs(Fr(cb['p'][i]) - (xh - X[i])) > tol_i:
+                return (f'k={cb["k"]}: reported p[{i}] = {cb["p"][i]!r} is not x̂ − x = {float(xh - X[i])!r} of the '
+                        f'proximal-gradient step at the reported γ')
+        bump('prox_data_checked')
+        if not cb['have_gh'] or not reads_hat:
+            continue
+        if any(not math.isfinite(a) for a in cb['grad_psi_hat'] + cb['yhat']):
+            bump('exempt_nonfinite_hat_data')
+            continue
+        XH = S.frv(cb['xhat'])
+        yh = ex.yhat(XH, y0, Sig)
+        ysc = max([abs(float(b)) for b in yh] + [abs(a) for a in cb['xhat']] + [1.0])
+        for j, (a, b) in enumerate(zip(cb['yhat'], yh)):
+            if abs(Fr(a) - b) > Fr(1e-9) * Fr(ysc) * Fr(qscale) * max(Fr(1), max(Sig + [Fr(1)])):
+                return (f'k={cb["k"]}: reported ŷ[{j}] = {a!r} but ŷ at the reported x̂ is {float(b)!r} '
+                        f'(criterion {S.CRITS[op.nat("crit")]} reads it)')
+        g = ex.grad_psi(XH, y0, Sig)
         scale = max([abs(float(b)) for b in g] + [abs(a) for a in cb['xhat']] + [1.0])
         bad = [i for i, (a, b) in enumerate(zip(cb['grad_psi_hat'], g))
-               if abs(Fr(a) - b) > Fr(1e-9) * Fr(scale) * (1 + max(abs(float(v)) for v in ex.Q + [Fr(1)])) ** 2]
+               if abs(Fr(a) - b) > Fr(1e-9) * Fr(scale) * Fr(qscale)]
         if bad:
             i = bad[0]
             return (f'k={cb["k"]}: reported ∇ψ(x̂)[{i}] = {cb["grad_psi_hat"][i]!r} but ∇ψ at the reported x̂ is '
                     f'{float(g[i])!r} (ε = {cb["eps"]!r} was computed from it; L = {cb["L"]!r})', KEY_STALE_GRAD)
+        bump('grad_and_yhat_at_xhat_checked')
     return None
 
 
